@@ -99,7 +99,7 @@ def model_local(env, unreadable_paths=()):
     return zone, model_load(zone, env, unreadable_paths)
 
 
-def leap_file(src, v1_leaps=True):
+def leap_file(src, v1_leaps=True, v1_only=False):
     """a valid TZif v2 with one leap-second record in both blocks (what 'right/' files look like)"""
     z = M.TZ(src)
     types = z.raw_types
@@ -124,6 +124,8 @@ def leap_file(src, v1_leaps=True):
         if nleap:
             b += struct.pack(f, 78796800) + struct.pack(">l", 1)
         return hdr + b
+    if v1_only:
+        return block(4, b"\0")
     return block(4, b"2") + block(8, b"2") + b"\n" + z.footer.encode("latin1") + b"\n"
 
 
@@ -156,6 +158,16 @@ def run(prop, tier, seed, replay=None):
         f.write(leap_file(ny))
     with open(os.path.join(tzdir, "Leap64"), "wb") as f:  # leap records only in the 64-bit block (zic -b slim -L)
         f.write(leap_file(ny, v1_leaps=False))
+    with open(os.path.join(tzdir, "LeapV1"), "wb") as f:  # a version-1 file (32-bit block only) with a leap-second record
+        f.write(leap_file(ny, v1_only=True))
+    # decoys: zone data stored under fixed-offset names must never be consulted
+    os.makedirs(os.path.join(tzdir, "Fixed"), exist_ok=True)
+    with open(os.path.join(tzdir, "Fixed", "UTC+01:00:00"), "wb") as f:
+        f.write(ny)
+    with open(os.path.join(tzdir, "Fixed", "UTC-23:59:59"), "wb") as f:
+        f.write(b"this is not TZif data\n")
+    with open(os.path.join(tzdir, "UTC0"), "wb") as f:
+        f.write(ny)
     with open(os.path.join(tzdir, "Garbage"), "wb") as f:
         f.write(b"this is not TZif data\n" * 10)
     with open(os.path.join(tzdir, "Empty"), "wb") as f:
@@ -175,7 +187,7 @@ def run(prop, tier, seed, replay=None):
         os.chmod(d, 0o755)
     abs_ny = os.path.join(tzdir, "America/New_York")
     names = ["America/New_York", "Europe/Dublin", "America/Argentina/Ushuaia", abs_ny, "file:America/New_York", "file:" + abs_ny, "", "Dir", "Trunc", "TruncNoNL", "TruncFooter", "TruncMidFooter",
-             "Leap", "Leap64", "Garbage", "Empty", ":America/New_York", ":Colon", "America/../Europe/Dublin", "UTC", "UTC0", "Fixed/UTC+01:00:00",
+             "Leap", "Leap64", "LeapV1", "Garbage", "Empty", ":America/New_York", ":Colon", "America/../Europe/Dublin", "UTC", "UTC0", "Fixed/UTC+01:00:00",
              "Fixed/UTC-23:59:59", "Fixed/UTC+00:00:00", "Fixed/UTC+24:00:01", "No/Such/Zone", "file:", "file:/nonexistent/x", "localtime", "Etc/UTC",
              "Secret", "america/new_york", "America/New_York/", os.path.join(tzdir, "Asia/Kolkata")]
     TZDIRS = {"unset": None, "empty": "", "valid": tzdir, "nonexistent": os.path.join(w, "no-such-dir"), "file": afile}
@@ -224,6 +236,7 @@ def run(prop, tier, seed, replay=None):
         return combo, menv, p
 
     evaluations = 0
+    internal_ref = {}
     nontrivial = set()
     samples = []
     stats = dict(children=0, loads=0, local_calls=0, loads_expected_ok=0, loads_expected_fail=0, local_expected_fallback=0, unreadable_probes=0,
@@ -288,6 +301,15 @@ def run(prop, tier, seed, replay=None):
                 bad = "wrong-reported-name"
             elif exp_ok and exp_name == "UTC" and not is_utc:
                 bad = "utc-name-not-utc"
+            elif exp_ok and path is None and exp_name != "UTC":
+                # an internal (fixed-offset) name: the same zone as in a process that has no zone data at all
+                if n not in internal_ref:
+                    e2 = dict(base_env)
+                    e2["TZDIR"] = os.path.join(w, "no-such-dir")
+                    pr = subprocess.run([exe, n], env=e2, stdout=subprocess.PIPE, stderr=subprocess.PIPE, text=True, timeout=60)
+                    internal_ref[n] = next((ln.split()[5] for ln in pr.stdout.splitlines() if ln.startswith("L ")), None)
+                if internal_ref[n] != dig:
+                    bad = "internal-name-resolved-to-zone-data"
             elif exp_ok and path is not None:
                 ref = digest_by_path.get(os.path.normpath(path))
                 if ref is None:
